@@ -476,6 +476,50 @@ example : "[[1,2],[3]]".toList =
     '[' :: (joinWith [','] ([("[1,2]".toList, [Tok.bare "1".toList, Tok.bare "2".toList])].map Prod.fst) ++
       ',' :: (("[3]".toList, [Tok.bare "3".toList]).1 ++ "]".toList)) := by decide
 
+/-- **Inline arrays with quoted string elements** (`["a","b"]`, any nesting depth).  `RenderedQ` is `Rendered` with
+    one more kind of leaf: `"text"` (the text free of quotes, backslashes and control characters).  `json.loads`
+    returns the shape and the leaves in row-major order — a quoted leaf as the text between its quotes — and
+    `cast_value` the array of the element casts.  Every `Rendered` text is a `RenderedQ` text (`rendered_toQ`), so
+    this subsumes `C13_inline_array`. -/
+theorem C13_inline_array_strings (ty : Ty) (ds : List Dim) (s : Str) (sh : List Nat) (toks : List Tok) (atoms : List Atom)
+    (hr : RenderedQ s sh toks) (hnone : (s == "none".toList) = false)
+    (hel : toks.mapM (tokAtom ty) = .ok atoms) (hd : checkDims ds sh = true) :
+    parseJson s = .ok (sh, toks) ∧ castText ty (some ds) s = .ok (.array sh atoms) := by
+  have hp := parseJson_renderedQ hr
+  refine ⟨hp, ?_⟩
+  simp only [castText, hnone, Bool.false_eq_true, if_false, hp, bind, Except.bind, hel, hd, if_true]
+
+/-- the element cast of a string array: the text between the quotes, unchanged -/
+theorem C13_array_str_elements (xs : List Str) :
+    (xs.map Tok.str).mapM (tokAtom .str) = .ok (xs.map Atom.str) :=
+  mapM_ok_map (tokAtom .str) _ _ xs (fun _ _ => rfl)
+
+/-- **String arrays of any nesting depth, from the text to the value**: the one-line program
+    `name str[dims] = [["a",…],[…]] [# comment]` (the array text without blank, `#`, backslash, `$`) parses to
+    exactly one parameter whose value is the array of the texts between the quotes, in row-major order. -/
+theorem C13_str_array_text (tbl : List UnitRow) (k : Nat) (nm : Str) (a : Nat) (dims : Option (List DimD)) (b c : Nat)
+    (s : Str) (sh : List Nat) (xs : List Str) (ds : List Dim) (cm : Option (Nat × Str))
+    (hn : NameOk nm) (hd : DimsOk dims) (htail : NoEsc (renderTail none cm))
+    (hr : RenderedQ s sh (xs.map Tok.str)) (hsh : sh ≠ [])
+    (hplain : ∀ ch ∈ s, ch ≠ '#' ∧ isWs ch = false ∧ ch ≠ '\\' ∧ ch ≠ '$')
+    (hds : dimsValue dims = some ds) (hcd : checkDims ds sh = true) :
+    parseLines (mkParams tbl)
+        [List.replicate k ' ' ++ (definePrefix nm a .str dims b c ++ (s ++ renderTail none cm))] =
+      .ok [{ name := nm, ty := .str, info := {}, dims := some ds, units := none,
+             value := some (.array sh (xs.map Atom.str)), declared := false }] := by
+  obtain ⟨r, hsr⟩ := renderedQ_head hr hsh
+  exact inline_array_text_core tbl k nm a .str dims b c s r sh _ _ ds none cm hn hd (by intro n x h; cases h) htail
+    (by intro n x h; cases h) (parseJson_renderedQ hr) hsr hplain hds (C13_array_str_elements xs) hcd
+
+example : RenderedQ "[\"ab\",\"c\"]".toList [2] (["ab".toList, "c".toList].map Tok.str) := by
+  have q : ∀ x : Str, x = "ab".toList ∨ x = "c".toList → StrOk x := by
+    intro x hx; rcases hx with rfl | rfl <;> (intro ch hch; revert ch; decide)
+  exact RenderedQ.arr [("\"ab\"".toList, [.str "ab".toList]), ("\"c\"".toList, [.str "c".toList])] [] (by simp)
+    (by intro it h; simp only [List.mem_cons, List.not_mem_nil, or_false] at h
+        rcases h with rfl | rfl
+        · exact RenderedQ.str _ (q _ (.inl rfl))
+        · exact RenderedQ.str _ (q _ (.inr rfl)))
+
 /-- **Escaped quotes.**  A definition whose double-quoted value is written with `\\"` for every quote
     character of the intended text `s` (`s` itself free of backslash, newline and `$`): the lexer marks
     the escapes (`$@01`), finds the closing quote, and hands back exactly `s` — the backslashes are gone,
